@@ -105,7 +105,8 @@ def run(case):
                 co.append("icontract.InvariantCheckEvent.CALL")
             if sa:
                 co.append("icontract.InvariantCheckEvent.SETATTR")
-            decos.append("@icontract.invariant(lambda self, _k=%d: H_inv(_k), check_on=%s)" % (inv_id, " | ".join(co)))
+            decos.append("@icontract.invariant(lambda self, _k=%d: H_inv(_k), check_on=%s)"
+                         % (inv_id, " | ".join(co) if co else "icontract.InvariantCheckEvent(0)"))
             inv_ids.append([inv_id, call, sa])
             inv_id += 1
         # decorators apply bottom-up: the first invariant of the list is the innermost
